@@ -1754,6 +1754,12 @@ async def slc(case, r: R):
         agree([o.value for o in hf.supported_ag_call_hold_operations] == exp_chld, 'slc/disagree/call-hold',
               f'call hold operations: expected {exp_chld}, HF learnt {[o.value for o in hf.supported_ag_call_hold_operations]}')
         r.ev('ag_slc_complete_emitted_%s' % ('once' if len(slc_events) == 1 else 'never' if not slc_events else 'repeatedly'))
+        # the HF took the service-level connection for complete: so must the AG, once
+        agree(len(slc_events) == 1 and not getattr(ag, '_remained_slc_setup_features', None),
+              'slc/disagree/completion/' + ('ag-never-complete' if not slc_events else
+                                            'ag-complete-repeatedly' if len(slc_events) > 1 else 'ag-still-waits-for-a-step'),
+              f'initiate_slc() returned at the HF; the AG emitted slc_complete {len(slc_events)} times and still waits for '
+              f'{sorted(getattr(f, "name", str(f)) for f in (getattr(ag, "_remained_slc_setup_features", None) or []))}')
     if outcome == 'ok':
         await after_slc_commands(r, rng, rg, hf, ag, mon, detail)
     # one final result code per command line on the AG's DLC
